@@ -73,9 +73,16 @@ def rich_documents() -> dict:
     # legal but unusual: `required` names properties nobody declares, repeats names, and names inherited ones
     schemas["Ghosts"] = {"type": "object", "required": ["ghost_b", "real", "ghost_a", "ghost_c", "ghost_a", "ghost_d"], "properties": {"real": S}}
     schemas["GhostKid"] = {"allOf": [r("Ghosts"), {"type": "object", "required": ["phantom_z", "phantom_y", "real", "phantom_x"], "properties": {"own": S}}]}
+    # a union with an INLINE member that extends a component, an alias of a model that has a parent itself: whether the parent comes first or last
+    schemas["Shelter"] = {"type": "object", "properties": {"resident": {"oneOf": [{"allOf": [r("Late"), {"type": "object", "properties": {"k": S}}]}, r("Beta")]},
+                                                           "keeper": {"anyOf": [{"allOf": [r("Late")], "description": "wrapped"}, {"type": "integer"}]}}}
+    schemas["KidAlias"] = {"allOf": [r("Kid")]}
+    schemas["UsesAlias"] = {"type": "object", "properties": {"k": r("KidAlias"), "ks": {"type": "array", "items": r("KidAlias")}}}
+    schemas["Late"] = {"type": "object", "properties": {"n": S}}
     paths = {}
     for i, n in enumerate(names):
-        paths[f"/{n.lower()}/{{id}}"] = {"get": {"operationId": f"get{n}", "tags": [n.lower(), "all"], "parameters": [
+        # the first tag (the one that decides the module) of four operations is spelled in three ways that give one module name
+        paths[f"/{n.lower()}/{{id}}"] = {"get": {"operationId": f"get{n}", "tags": [["grp", "Grp", "GRP", "grp"][i] if i < 4 else n.lower(), "all"], "parameters": [
             {"name": "id", "in": "path", "required": True, "schema": S}, {"name": "f", "in": "query", "schema": r("Lit")},
             {"name": "when", "in": "query", "schema": {"type": "string", "format": "date"}},
             {"name": "w", "in": "query", "schema": {"oneOf": [{"type": "string", "format": "date-time"}, {"type": "integer"}]}},
@@ -104,16 +111,17 @@ def rich_documents() -> dict:
     return docs
 
 
-def permuted(doc: dict, rnd) -> dict:
+def permuted(doc: dict, rnd, k: int = 1) -> dict:
+    """k = 0: both sections reversed (deterministic: what came first comes last); otherwise a random shuffle."""
     d = json.loads(json.dumps(doc))
     sch = (d.get("components") or {}).get("schemas")
     if sch:
         items = list(sch.items())
-        rnd.shuffle(items)
+        items.reverse() if k == 0 else rnd.shuffle(items)
         d["components"]["schemas"] = dict(items)
     if d.get("paths"):
         items = list(d["paths"].items())
-        rnd.shuffle(items)
+        items.reverse() if k == 0 else rnd.shuffle(items)
         d["paths"] = dict(items)
     return d
 
@@ -189,15 +197,17 @@ def run(rep) -> None:
                 diff = sorted(k for k in set(a["snap"]) | set(b["snap"]) if a["snap"].get(k) != b["snap"].get(k))
                 rep.violate("C12/hash-seed/with-post-hooks", f"{name}: formatted trees differ between hash seeds: {diff[:5]}", document=name, files=diff)
         # ---- permutations of components.schemas and paths (diagnostics-free documents only)
-        jobs, meta = [], []
+        jobs, meta, suspicious = [], [], []
         for name, doc in docs.items():
             if any(x["diags"] for x in [base[names.index(name)]]):
                 rep.extra.setdefault("permutation_leg_skipped_documents_with_diagnostics", []).append(name)
-                if name in ("rich", "zoo"):      # the hand-written family documents must stay diagnostics-free, or the leg loses its richest input unnoticed
-                    raise tlc.TlcFailure(f"the rich document produces diagnostics and would be left out of the permutation leg: {base[names.index(name)]['diags'][:2]}")
-                continue
-            for k in range(2 if quick else 5):
-                pd = permuted(doc, rnd)
+                if name not in ("rich", "zoo"):
+                    continue
+                # the hand-written family documents are valid: diagnostics in the order they are written in are either an effect of that order
+                # (decided by the permutations below) or the leg is about to lose its richest input unnoticed (machinery failure)
+                suspicious.append(name)
+            for k in range(3 if quick else 6):
+                pd = permuted(doc, rnd, k)
                 jobs.append((pd, str(d / "perm" / f"{name.replace('/', '_')}-{k}"), {}))
                 meta.append((name, k, pd))
         (d / "perm").mkdir()
@@ -209,6 +219,13 @@ def run(rep) -> None:
                 continue
             snap = gen.snapshot(d / "perm" / f"{name.replace('/', '_')}-{k}")
             ref = base[names.index(name)]["snap"]
+            if name in suspicious:
+                bd = sorted((x["header"], x["detail"]) for x in base[names.index(name)]["diags"])
+                if sorted((x["header"], x["detail"]) for x in r["diags"]) != bd or snap != ref:
+                    rep.violate("C12/permutation/diagnostics-depend-on-order", f"{name}: a valid document is reported on in the order it is written in ({bd[0][0].strip()[:80]} ...) "
+                                "and reordering components.schemas/paths changes the diagnostics or the tree", document=name, diags=base[names.index(name)]["diags"][:3])
+                    suspicious.remove(name)
+                continue
             if r["diags"]:
                 rep.violate("C12/permutation/diagnostics-appear", f"{name}: reordering made diagnostics appear", document=name,
                             diags=r["diags"][:3], doc=pd if len(json.dumps(pd)) < 20000 else "(large)")
@@ -217,6 +234,9 @@ def run(rep) -> None:
                 kind = "file-set" if set(snap) != set(ref) else "contents"
                 rep.violate(f"C12/permutation/{kind}", f"{name}: reordering components.schemas/paths changes the tree: {diff[:5]}",
                             document=name, files=diff, doc=pd if len(json.dumps(pd)) < 20000 else "(large)")
+        if suspicious:
+            raise tlc.TlcFailure(f"the documents {suspicious} produce diagnostics in every order and are left out of the permutation leg: "
+                                 f"{base[names.index(suspicious[0])]['diags'][:2]}")
         rep.sample({"document": "rich (6 mutually referencing models with 9 properties each, allOf children, 6 operations)", "seeds": seeds})
         rep.sample({"emission_site": sites[0]})
     finally:
